@@ -1284,8 +1284,9 @@ class Worker(actor.RallyActor):
     @actor.no_retry("worker")  # pylint: disable=no-value-for-parameter
     def receiveMsg_CompleteCurrentTask(self, msg, sender):
         # finish now ASAP. Remaining samples will be sent with the next WakeupMessage. We will also need to skip to the next
-        # JoinPoint. But if we are already at a JoinPoint at the moment, there is nothing to do.
-        if self.at_joinpoint():
+        # JoinPoint. But if we are already at a JoinPoint at the moment, there is nothing to do - unless we have already been told
+        # to drive on and are just waiting for our wakeup: then this message refers to the tasks that we are about to start.
+        if self.at_joinpoint() and not self.start_driving:
             self.logger.info(
                 "Worker[%s] has received CompleteCurrentTask but is currently at join point at index [%d]. Ignoring.",
                 str(self.worker_id),
